@@ -25,4 +25,4 @@ wait $CHK
 echo "== [3] result of check $ID $TIER against the patched tree"
 for f in $(ls /tmp/eval$SLOT-out/replays/$ID/*.json 2>/dev/null | head -4); do python3 -c "
 import json,sys; d=json.load(open('$f')); print('   key:', d['key'][:200]); print('   what:', d['what'][:300])"; done
-cat /tmp/eval$SLOT-check.log | grep -E "VIOLATION|KNOWN-FINDING|exit status|tier done|MACHINERY|error(\[|:)" | cut -c1-400 | head -20
+cat /tmp/eval$SLOT-check.log | grep -E "VIOLATION|exit status|tier done|MACHINERY|error(\[|:)" | cut -c1-400 | head -20
